@@ -110,10 +110,13 @@ fn stress(ctl: &Arc<Ctl>, threads: usize, per_thread: usize, counters: i64, main
     // published runs and must not lose a commit that lands while they wait for the writer lock
     let stop = Arc::new(std::sync::atomic::AtomicBool::new(false));
     let maint = if maintenance {
-        let (db, stop) = (db.clone(), stop.clone());
+        let (db, stop, clock) = (db.clone(), stop.clone(), clock.clone());
+        // maintenance stops before the writers do: the last commits then exist in the log only,
+        // and what the reopen below shows of them depends on the log alone
+        let until = (2 * threads * per_thread) as u64 * 7 / 10;
         Some(std::thread::spawn(move || {
             let mut n = 0u64;
-            while !stop.load(Ordering::SeqCst) {
+            while !stop.load(Ordering::SeqCst) && clock.load(Ordering::SeqCst) < until {
                 let _ = if n % 3 == 2 { db.checkpoint() } else { db.compact() };
                 n += 1;
                 std::thread::sleep(Duration::from_micros(300));
@@ -159,6 +162,34 @@ fn stress(ctl: &Arc<Ctl>, threads: usize, per_thread: usize, counters: i64, main
             });
         }
     }
+    // what was acknowledged must also be there after the handle is closed and the files are opened
+    // again (a commit that waited for the writer lock while a compaction ran must be replayed)
+    let values_before: Vec<Option<i64>> = (0..counters).map(|k| counter_value(&db, k)).collect();
+    let reopen_check = |db: Arc<CDb>, out: &mut CaseOut| -> Option<Arc<CDb>> {
+        let inner = Arc::try_unwrap(db).ok()?;
+        inner.close().ok()?;
+        let again = CDb::open(&dir.db_base()).ok()?;
+        for k in 0..counters {
+            let got = counter_value(&again, k);
+            if got != values_before[k as usize] {
+                out.violations.push(Violation {
+                    signature: "C09|lost-update-after-reopen|free-running".into(),
+                    summary: format!("counter {k}: value {:?} before closing the handle, {got:?} after reopening ({} increments were acknowledged)", values_before[k as usize], acked[k as usize].load(Ordering::SeqCst)),
+                    detail: json!({"threads": threads, "per_thread": per_thread, "maintenance_thread": maintenance}),
+                    replay: json!({"engine":"concmon","property":"C09","kind":"stress-reopen","threads":threads}),
+                });
+            }
+        }
+        out.count("reopen_checks_after_stress", 1);
+        Some(Arc::new(again))
+    };
+    let db = match reopen_check(db, out) {
+        Some(d) => d,
+        None => {
+            out.inconclusive("reopen-after-stress-failed");
+            return;
+        }
+    };
     // unique creates: MERGE (:U {k}) issued concurrently by all threads must leave one node per k
     let distinct = per_thread.div_ceil(4) as i64;
     let n = count_label(&db, "MATCH (u:U) RETURN count(u) AS n");
